@@ -32,7 +32,7 @@ var extraRequire = map[string][]string{
 	"C09": {"cli_diff_consensus"},
 	"C10": {"cli_diff_support-fbp", "cli_diff_support-tbe"},
 	"C08": {"cli_diff_compare-trees"},
-	"C12": {"cli_diff_acr"},
+	"C12": {"cli_diff_acr-out-states", "cli_diff_acr"},
 	"C15": {"cli_diff_graft", "cli_diff_repopulate", "cli_diff_merge"},
 }
 
@@ -636,7 +636,12 @@ func cliDiffC12(quick bool) []cliDiff {
 	if !quick {
 		n = 5
 	}
-	for ti, txt := range cliDiffTrees(n) {
+	trees := cliDiffTrees(n)
+	// the same trees with numeric tip names (1, 2, ...): unnamed inner nodes are reported under their traversal index
+	for _, txt := range cliDiffTrees(n) {
+		trees = append(trees, strings.ReplaceAll(txt, "t", ""))
+	}
+	for ti, txt := range trees {
 		txt := txt
 		m := rm.MustParse(txt)
 		names := m.TipNames()
@@ -673,6 +678,26 @@ func cliDiffC12(quick bool) []cliDiff {
 						return "", true
 					}
 					return nwOf(t) + fmt.Sprintf("steps %d\n", steps), false
+				}})
+				if v != 2 {
+					continue
+				}
+				ds = append(ds, cliDiff{"C12", "acr-out-states", append(append([]string{}, args...), "--out-states", "-"), files, fmt.Sprintf("ParsimonyAcr(tree, states, %q, false): annotated tree, steps, returned node->states map sorted by key", algo), func() (string, bool) {
+					t := gtMustParse(txt)
+					sm, steps, err := acr.ParsimonyAcr(t, states, a, false)
+					if err != nil {
+						return "", true
+					}
+					var keys []string
+					for k := range sm {
+						keys = append(keys, k)
+					}
+					sort.Strings(keys)
+					out := nwOf(t) + fmt.Sprintf("steps %d\n", steps)
+					for _, k := range keys {
+						out += k + "," + sm[k] + "\n"
+					}
+					return out, false
 				}})
 			}
 		}
